@@ -389,7 +389,11 @@ def well_typed(T, obj, bridge):
     from pyasn1.type import univ, base
     k = T['k']
     spec = bridge.to_type(T)
-    if obj is None or obj is base.noValue or not obj.isValue:
+    if obj is None or obj is base.noValue:
+        return 'valueless object'
+    if obj.__class__ is not spec.__class__:
+        return 'is a %s, declared %s' % (obj.__class__.__name__, spec.__class__.__name__)
+    if not obj.isValue:
         return 'valueless object'
     if k in ('SEQUENCE', 'SET'):
         for idx, (n, ft, m) in enumerate(T['fields']):
@@ -466,6 +470,11 @@ def chk_accepts_wellformed(T, v, M, rng, nmut=12):
     except Exception:
         return [], 0
     inputs = mutations(e, rng, nmut)
+    # the indefinite-length forms go through decoders of their own (the end-of-octets loops of the constructed types)
+    try:
+        inputs += mutations(be.encode(bridge.to_value(T, v, spec), defMode=False), rng, max(2, nmut // 3))
+    except Exception:
+        pass
     # encodings of values of the unconstrained twin type that the constrained type does not contain
     if T.get('violating'):
         twin = bridge.strip_constraints(T)
